@@ -97,6 +97,11 @@ def show(t, depth=0):
     return "%s(%s)" % (k, ", ".join(s(a, depth + 1) for a in t[1:]))
 
 
+_STD_MUTATORS = ("push", "pop", "insert", "remove", "swap_remove", "extend", "extend_from_slice", "append", "clear", "truncate", "resize", "drain", "retain",
+                 "reverse", "swap", "sort", "sort_by", "sort_unstable", "fill", "rotate_left", "rotate_right", "dedup", "split_off", "take", "replace", "get_or_insert_with",
+                 "entry", "or_insert", "or_insert_with")
+
+
 def mk_field(v, f):
     """field `f` of v: a struct literal's own component when v is one"""
     v0 = v
@@ -754,6 +759,14 @@ class Exec:
                 continue
             recv, args = vs[0], vs[1:]
             rt = self.c.tya(n["recv"]) or ""
+            if not rt.startswith("&mut"):
+                # a receiver node written by a normalisation pass may lack rustc's adjusted type: a crate method taking `&mut self`, or a std
+                # mutator called on a receiver of unknown type, is a mutation all the same
+                cf_ = self.c.fns.get(n["callee"][5:] if str(n.get("callee", "")).startswith("Self:") else n.get("callee"))
+                if cf_ is not None and (cf_.get("inputs") or [""])[0].startswith("&mut"):
+                    rt = "&mut (callee)"
+                elif rt == "" and name in _STD_MUTATORS:
+                    rt = "&mut (by name)"
             val = mk_mcall(n["callee"], name, recv, args)
             q = p.fork(val=val)
             if rt.startswith("&mut") and name not in TRANSPARENT_METHODS:
